@@ -3,6 +3,7 @@ import AFModel.FloatOps
 import AFModel.Passing
 import AFModel.WidthCfg
 import AFModel.PassRoutes
+import AFModel.PassPlace
 import AFModel.Generated.C12
 
 open Lean (Json)
@@ -115,7 +116,16 @@ def handleC12 (j : Json) : Except String Json := do
     | .ok (Json.arr ps) => do
         let pls ← ps.toList.mapM placeOfJson
         pure (some pls, ← chainOfJson j)
-    | _ => pure (none, [])
+    | _ => match j.getObjVal? "classes" with
+      -- class and attribute name of every parameter derived by the model from the composition
+      | .ok (Json.obj kvs) => do
+          let classes ← kvs.toList.mapM fun (k, v) => do pure (k, ← clsTreeOfJson v)
+          let owns ← (← getArr j "owns").toList.mapM fun o => do
+            pure (match getBool o "relative", getFloat o "value" with
+              | .ok r, .ok v => some (r, v)
+              | _, _ => (none : Option (Bool × Float)))
+          pure (some (placesFromTree classes t owns), ← chainOfJson j)
+      | _ => pure (none, [])
   let cfgArr : Array Json := match j.getObjVal? "cfgs" with
     | .ok (Json.arr a) => a
     | _ => #[]
@@ -148,6 +158,9 @@ def handleC12 (j : Json) : Except String Json := do
     ("new", Json.arr (args.map (fun (_, d) => jsonOfPD d)).toArray),
     ("paths", Json.arr ((paths r).map jsonOfPath).toArray),
     ("count", Json.num ((count r : Nat) : Lean.JsonNumber)),
-    ("cfg_ok", cfgOk)])
+    ("cfg_ok", cfgOk),
+    ("place_keys", Json.arr ((placeKeys t).map (fun (c, a) => Json.arr #[match c with
+      | some c => Json.str c
+      | none => Json.null, Json.str a])).toArray)])
 
 end AF.Driver
